@@ -83,11 +83,16 @@ class AsyncSpec(object):
         if not self.is_flusher:
             st.g['executed'] = fresh('executed', SeqV); st.g['inflight'] = fresh('inflight', SeqV)
         st.assume(inv(st.g, st.seq(nbuf))); st.g['lock_held'] = True
+        q0 = st.seq(nbuf); infl0 = st.g['inflight']
         outs = []
         for s1, oc in ex.block(n.body, st):
             b1 = s1.rd(selfv, BUF)
-            if self.is_flusher and s1.g.get('swap_local') and s1.lookup(s1.g['swap_local']) is not None:
-                s1.g['inflight'] = s1.seq(s1.lookup(s1.g['swap_local']))           # ghost assignment at the swap: the batch taken is now in flight
+            if self.is_flusher:
+                # ghost assignment at release, stated over the protected state only (not over the code's locals): whatever the critical section
+                # removed from the FRONT of the buffer is now in flight.  The invariant below then holds exactly when what is left in the buffer
+                # is a suffix of what was there; that the flusher goes on to execute precisely this batch, in order, is the loop's obligation.
+                left = s1.seq(b1)
+                s1.g['inflight'] = z3.Concat(infl0, z3.SubSeq(q0, 0, z3.Length(q0) - z3.Length(left)))
             ex.obligations.append(('monitor_invariant_at_release', s1.copy(), inv(s1.g, s1.seq(b1)), oc))
             s1.g['lock_held'] = False; outs.append((s1, oc))
         return outs
@@ -155,7 +160,6 @@ def producer(props=None):
 def flusher(props=None):
     repo, spec, ex, st, selfv, fr, node, info = base(AC + '_flush_recording', True)
     st.assume(st.g['inflight'] == E)         # flusher-local fact: its previous batch is finished (single flusher thread, A11)
-    st.g['swap_local'] = 'current_flushed_operations'
     paths = ex.block(node.body, st); obl = []; U = '_flush_recording'
     for s, oc in paths:
         obl.append(Obl('C12/%s/never_raises_ordinary' % U, 'C12', s, z3.BoolVal(True) if oc[0] == 'normal' else (z3.Not(is_exc(oc[1])) if oc[0] == 'raise' else z3.BoolVal(False)), oc))
